@@ -556,8 +556,11 @@ def rule_part(ctx: Ctx) -> RuleReport:
         srcs = [pp]
     wparams = {a.arg for a in wf.node.args.args + wf.node.args.kwonlyargs}
     bad = [v for v in srcs if not (isinstance(v, ast.Constant) and v.value == "") and (any(isinstance(x, ast.Call) and isinstance(x.func, ast.Attribute) and x.func.attr == "get" for x in ast.walk(v)) or not ({x.id for x in ast.walk(v) if isinstance(x, ast.Name)} & wparams))]
-    if srcs and not bad:
-        rep.ok({"_walk_and_filter": "parent path = the requested folder path"})
+    stripped = all(isinstance(v, ast.Constant) or any(isinstance(x, ast.Call) and isinstance(x.func, ast.Attribute) and x.func.attr == "strip" and x.args and isinstance(x.args[0], ast.Constant) and "/" in str(x.args[0].value) for x in ast.walk(v)) for v in srcs)
+    if srcs and not bad and not stripped:
+        rep.fail(Finding("C18-PART", CL, wf.qual, "parent path not normalised", "the requested folder path is used as parent path as the caller spelled it: 'Reports/' gives full paths like 'Reports//q1.pdf' (the lookup of the folder strips the slashes, the parent path must too)", line=wc[0].lineno))
+    elif srcs and not bad:
+        rep.ok({"_walk_and_filter": "parent path = the requested folder path, slashes stripped"})
     else:
         w = bad[0] if bad else wc[0]
         rep.fail(Finding("C18-PART", CL, wf.qual, "parent path from " + anorm(w, wf.node), f"the parent path of a folder-restricted listing is `{short(w, 60)}`, not the requested folder path: for a nested folder such as Reports/2024 the files are reported under '2024', their full paths are wrong and path patterns no longer match", line=getattr(w, "lineno", wf.node.lineno)))
